@@ -102,4 +102,5 @@ class WalkerDB:
 
     def unhandled(self, ci: ClassInfo) -> List[str]:
         h = self.handlers(ci)
-        return [m for m in self.ops.members if m not in h]
+        # Walker registers walk_error for every operator: falling back to it means "not handled"
+        return [m for m in self.ops.members if m not in h or h[m].name == "walk_error"]
